@@ -424,6 +424,8 @@ def gen_c06(rng, fs, i, cfg):
                                max_merge=rng.choice([1, 2, 3, 4, 200]))
         op["form"] = rng.choice(["iter", "iterdict"])
     else:
+        if rng.random() < 0.15:
+            return gen_cliload(rng, fs, i, cfg)
         op = gen.gen_unordered(rng, gen.gen_layout(rng, cfg.get("maxchroms", 4), cfg.get("maxbins", 8)),
                                maxpx=cfg.get("maxpx", 40))
         ctx["last"] = op
@@ -565,3 +567,55 @@ def gen_c18(rng, fs, i, cfg):
     return {"op": "merge", "file": rng.choice(out), "path": "/m%d" % i, "mode": "a",
             "inputs": [{"file": a, "path": b} for a, b in ins], "mergebuf": 5, "columns": None, "agg": None,
             "fault": None}
+
+
+# ===========================================================================
+# text loading (cooler load) and the C02 mixture
+# ===========================================================================
+def gen_cliload(rng, fs, i, cfg):
+    kind = rng.choice(["fixed", "fixed-exact", "fixed1", "variable", "longlast", "onebin", "mixed-one"])
+    lay = gen.gen_layout(rng, cfg.get("maxchroms", 4), cfg.get("maxbins", 8), kind)
+    n = gen.nbins_of(lay)
+    symm = rng.random() < 0.7
+    support = gen.gen_support(rng, n, symm, None, cfg.get("maxpx", 40))
+    vals = [rng.randint(1, 50) for _ in support]
+    perm = list(range(len(support)))
+    rng.shuffle(perm)
+    rec = {"bin1_id": [support[p][0] for p in perm], "bin2_id": [support[p][1] for p in perm],
+           "count": [vals[p] for p in perm]}
+    total = len(support)
+    fid = rng.choice(["f0", "f1"])
+    op = {"op": "cliload", "layout": lay, "symmetric": symm, "records": rec, "file": fid,
+          "path": _dest(rng, fs, fid, prefer_new=0.85), "mode": "a" if rng.random() < 0.85 else "w",
+          "chunksize": rng.choice([1, 2, 3, 5, max(1, total // 2), total + 1, 10**6]),
+          "max_merge": rng.choice([1, 2, 3, 200]), "mergebuf": rng.choice([None, 1, 3, 10**6]),
+          "binspec": "bed"}
+    if kind in ("fixed", "fixed-exact", "fixed1", "mixed-one"):
+        b = lay["edges"][0][1] - lay["edges"][0][0] if len(lay["edges"][0]) > 2 else None
+        for e in lay["edges"]:
+            if len(e) > 2:
+                b = e[1] - e[0]
+        if b is not None and all(e[k] == k * b for e in lay["edges"] for k in range(len(e) - 1)) \
+                and all(e[-1] - e[-2] <= b for e in lay["edges"]) and rng.random() < 0.6:
+            op["binspec"] = "chromsizes"
+            op["binsize"] = b
+    return op
+
+
+THEMES = ["gen_c01", "gen_c06", "gen_c07", "gen_c08", "gen_c09", "gen_c17", "gen_c18", "gen_c15"]
+
+
+def gen_c02(rng, fs, i, cfg):
+    ctx = _ctx(cfg)
+    if "theme" not in ctx:
+        ctx["theme"] = rng.choice(THEMES)
+    if rng.random() < 0.12:
+        return gen_cliload(rng, fs, i, cfg)
+    op = globals()[ctx["theme"]](rng, fs, i, cfg)
+    if op is None:
+        # the theme is exhausted (e.g. zoomify done): continue with coarsen/merge chains
+        have = [(f, p) for f in sorted(fs.files) for p in cooler_paths(fs, f)]
+        if not have:
+            return None
+        return gen_coarsen_op(rng, fs, rng.choice(have), i)
+    return op
